@@ -319,6 +319,19 @@ static void __attribute__((noinline)) boxcont_build(long n) {
 
 static void __attribute__((noinline)) plain_nodes_build(long base, long n) { for (long i = 0; i < n; i++) { var nd = new(Node, $I(base + i)); (void)nd; } }
 
+/* a heap Tuple one of whose items is NULL (set, push and the constructor accept it): the collector meets it while marking */
+static long __attribute__((noinline)) tuplenull_run(volatile var* slot) {
+  long bad = 0;
+  var a = new(Node, $I(1000)), b = new(Node, $I(1001));
+  var t = new(Tuple, a, NULL, b);
+  *slot = t;
+  a = NULL; b = NULL; t = NULL;
+  scrub(); do_collect(0); do_collect(1);
+  if (fin_count[1000] || fin_count[1001]) bad++;                     /* reachable through the Tuple */
+  *slot = NULL;
+  return bad;
+}
+
 static int kind_of(const char* s) { for (int k = 1; k <= K_TREEK; k++) if (!strcmp(s, KN[k])) return k; return 0; }
 
 static int wfd = 1;
@@ -529,6 +542,11 @@ static int __attribute__((noinline)) real_main(int argc, char** argv) {
       for (long i = 0; i < n; i++) if (fin_count[1000 + i] > 1) twice++;
       ev_begin("bulk"); ev_int("n", n); ev_int("rooted", 0); ev_int("lost", 0); ev_int("twice", twice); ev_int("stale", gone2 == 0 ? 1 : 0); ev_int("gone", gone2);
       ev_str("raised", first); ev_str("exc", hc_exc); ev_int("line", cur_line); ev_end();
+    } else if (hc_is(0, "tuplenull")) {
+      volatile long bad = -1; bulkn = 2;
+      HC_TRY(bad = tuplenull_run(&ROOTSLOT(30)); scrub(); do_collect(0));
+      ev_begin("bulk"); ev_int("n", 2); ev_int("rooted", 1); ev_int("lost", bad); ev_int("twice", 0); ev_int("stale", 0); ev_int("gone", 0);
+      ev_str("exc", hc_exc); ev_int("line", cur_line); ev_end();
     } else if (hc_is(0, "viewcopy")) {         /* copies of views are ordinary managed objects */
       volatile long bad = -1;
       HC_TRY(bad = viewcopy_run(); scrub(); do_collect(0));
